@@ -1,6 +1,7 @@
 package main
 
 import (
+	"net/http"
 	"fmt"
 	"strconv"
 	"strings"
@@ -39,6 +40,16 @@ func hx(x string) string {
 }
 
 func (s *genState) setH(k, v string) { s.add("H " + hx(k) + " " + hx(v)) }
+
+// setT stores a trailer value: under the declared spelling by direct map assignment (always for a non-canonical
+// name: Header.Set would store it under another key), else through Header.Set.
+func (s *genState) setT(k, v string) {
+	if k != http.CanonicalHeaderKey(k) || s.g.Chance(1, 3) {
+		s.add("M " + hx(k) + " " + hx(v))
+		return
+	}
+	s.setH(k, v)
+}
 
 // pending runs the program so far on the real code (no injected errors) and returns how many bytes the
 // next write would find buffered in front of it (head included, learned from a dry run with a 1-byte
@@ -208,7 +219,7 @@ func genResp(g *lp.Gen, tr *track.Tracker, lg *nullLogger) {
 	if mode != "cl" && g.Chance(1, 4) {
 		nt := 1 + g.Intn(3)
 		for i := 0; i < nt; i++ {
-			k := g.Pick("X-Sum", "X-T1", "X-T2", "Etag-Late")
+			k := g.Pick("X-Sum", "X-T1", "X-T2", "Etag-Late", "x-sum2", "x-Trail-3") // the last two: declared under a non-canonical spelling
 			dup := false
 			for _, t := range trailers {
 				dup = dup || t == k
@@ -228,7 +239,7 @@ func genResp(g *lp.Gen, tr *track.Tracker, lg *nullLogger) {
 	for _, k := range trailers {
 		switch g.Intn(4) {
 		case 0: // value known before the body
-			s.setH(k, "early"+value(g, 6))
+			s.setT(k, "early"+value(g, 6))
 		case 1: // never set
 		default:
 			late[k] = true
@@ -258,7 +269,7 @@ func genResp(g *lp.Gen, tr *track.Tracker, lg *nullLogger) {
 		// a trailer value becoming known in the middle of the body
 		for k := range late {
 			if g.Chance(1, 4) {
-				s.setH(k, "mid"+value(g, 5))
+				s.setT(k, "mid"+value(g, 5))
 				delete(late, k)
 				break
 			}
@@ -280,7 +291,7 @@ func genResp(g *lp.Gen, tr *track.Tracker, lg *nullLogger) {
 	}
 	for _, k := range trailers {
 		if late[k] {
-			s.setH(k, "late"+value(g, 6))
+			s.setT(k, "late"+value(g, 6))
 		}
 	}
 	emit(s)
